@@ -16,7 +16,8 @@ dependency syntax: it works on the clause lists, with its own atom matcher (`rat
 vf.ref.pms_version).  Atoms are restricted to `[!|!!][op]cat/pkg[-ver][:slot]`, op in {>=,>,<=,<,=,~}; versions are
 small integers (version syntax is C01-C04's business, not the resolver's).
 
-Nothing here imports pkgcore at module import time (the runner forks workers after importing props).
+pkgcore is imported lazily; props modules call preload() at import time so that the runner's forked workers
+inherit the (4-5 s) import instead of repeating it per task.
 """
 
 from __future__ import annotations
@@ -320,6 +321,33 @@ class _Lookup:
         return self.objs[(c, p, v)]
 
 
+def preload():
+    """import everything the resolver needs (called once in the parent process before the worker pool forks)"""
+    import logging
+    import signal
+
+    logging.getLogger("pkgcore").setLevel(logging.ERROR)
+    # pkgcore.ebuild.processor installs a SIGTERM handler that raises SystemExit at import.  Inherited by pool
+    # workers it turns Pool.terminate() into an exception at an arbitrary point of a freshly forked worker
+    # ("Exception ignored in _after_fork"), which then never exits and the runner hangs in join(). Keep the
+    # runner's own disposition.
+    prev = signal.getsignal(signal.SIGTERM)
+    try:
+        _preload_imports()
+    finally:
+        signal.signal(signal.SIGTERM, prev)
+
+
+def _preload_imports():
+    import pkgcore.ebuild.atom  # noqa: F401
+    import pkgcore.ebuild.resolver  # noqa: F401
+    import pkgcore.repository.util  # noqa: F401
+    import pkgcore.resolver.choice_point  # noqa: F401
+    import pkgcore.resolver.plan  # noqa: F401
+    import pkgcore.resolver.state  # noqa: F401
+    import pkgcore.test.misc  # noqa: F401
+
+
 class StepLimit(Exception):
     """raised by the counting resolver subclass when resolution does not terminate within the step bound"""
 
@@ -445,7 +473,13 @@ def _pkg_deps(rnd, names, profile, density, own=None):
             cls = _w(rnd, [("RDEPEND", 4), ("PDEPEND", 2), ("DEPEND", 2), ("BDEPEND", 1), ("IDEPEND", 1)])
         else:
             cls = _w(rnd, [("RDEPEND", 4), ("DEPEND", 3), ("PDEPEND", 2), ("BDEPEND", 2), ("IDEPEND", 2)])
-        cl = _dep_clause(rnd, names, profile, own)
+        pool = names
+        if profile == "mono" and cls != "PDEPEND":
+            # acyclic except through PDEPEND: only names ranked after the package's own
+            pool = names[names.index(own) + 1:] if own in names else names
+            if not pool:
+                continue
+        cl = _dep_clause(rnd, pool, profile, own)
         deps.setdefault(cls, [])
         if cl not in deps[cls]:
             deps[cls].append(cl)
@@ -453,8 +487,9 @@ def _pkg_deps(rnd, names, profile, density, own=None):
 
 
 def gen_world(seed: int, profile="full", max_pkgs=12):
-    """profile 'full': everything the C15 quantifier lists. profile 'mono': only unversioned or `>=` non-blocker
-    dependencies (the highest version of a slot satisfies every dependency any version satisfies), used by C16."""
+    """profile 'full': everything the C15 quantifier lists. profile 'mono' (C16): only unversioned or `>=` non-blocker
+    dependencies (the highest version of a slot satisfies every dependency any version satisfies), and no dependency
+    cycles except through PDEPEND (the resolver accepts other cycles only under context-dependent conditions)."""
     rnd = random.Random(seed)
     nnames = rnd.randint(1, 5) if rnd.randrange(8) == 0 else rnd.randint(2, 5)
     names = list(NAMES[:nnames])
@@ -526,6 +561,20 @@ def gen_world(seed: int, profile="full", max_pkgs=12):
 
 def worlds(profile="full", max_pkgs=12):
     return st.integers(0, 2**62).map(lambda s: gen_world(s, profile, max_pkgs))
+
+
+def drive(ctx, profile, examples, fn, salt=0, max_pkgs=12):
+    """call fn(world) for `examples` worlds; the world seeds come from a Random seeded by (run seed, shard, salt),
+    i.e. the run seed selects which slice of the finite seed space is visited.  (Driving the same generator through
+    hypothesis cost ~3x the resolution itself; worlds are minimised structurally by shrink_world instead.)"""
+    rnd = random.Random(f"resolverworld:{ctx.seed}:{ctx.shard}:{salt}")
+    done = 0
+    for i in range(examples):
+        if i % 32 == 0 and ctx.out_of_time():
+            break
+        fn(gen_world(rnd.getrandbits(62), profile, max_pkgs))
+        done += 1
+    return done
 
 
 def world_size(world):
